@@ -167,8 +167,15 @@ class Eff:
             try:
                 tree = ast.parse(d, mode='eval').body
             except SyntaxError:
-                raise KeyError('documented default of %s is not an '
-                               'expression: %s' % (name, d))
+                # some documentation strings lack the closing parenthesis of
+                # max(1,B.size[0]
+                try:
+                    tree = ast.parse(d + ')' * max(0, d.count('(') -
+                                                   d.count(')')),
+                                     mode='eval').body
+                except SyntaxError:
+                    raise KeyError('documented default of %s is not an '
+                                   'expression: %s' % (name, d))
             dv = self.expr(tree)
             v = z3.If(raw < 0 if rule == 'neg' else raw == 0, dv, raw)
         self.cache[name] = v
@@ -215,6 +222,28 @@ class Eff:
                 return o.nrows if idx.value == 0 else o.ncols
         raise KeyError('documented default not interpretable: ' +
                        ast.dump(n)[:60])
+
+
+# the wrapper named X wraps the LAPACK routines dX / zX; the real counterpart
+# of a Hermitian / unitary routine is the symmetric / orthogonal one.  The
+# drivers sysv/hesv ask xSYTRF/xHETRF for the workspace size.
+HELPERS = {'sysv': ('sytrf',), 'hesv': ('hetrf',)}
+
+
+def real_name(base):
+    if base.startswith('he'):
+        return 'sy' + base[2:]
+    if base.startswith('un'):
+        return 'or' + base[2:]
+    return base
+
+
+def routine_ok(fn, routine):
+    tc, base = routine[0], routine[1:-1]
+    allowed = (fn,) + HELPERS.get(fn, ())
+    if tc == 'z':
+        return base in allowed
+    return base in [real_name(a) for a in allowed]
 
 
 def es_of(o):
@@ -325,6 +354,9 @@ def post(ex, finished, extra_obs):
                 continue
             summ['calls'].append(rec.name)
             goals, texts = [], []
+            goals.append(z3.BoolVal(routine_ok(fname, rec.name)))
+            texts.append('is the LAPACK routine of this wrapper (%s wraps '
+                         'd%s / z%s)' % (fname, real_name(fname), fname))
             temp = set()         # LAPACK array params on wrapper temporaries
             for X, p in rec.args['ptrs'].items():
                 if not isinstance(p, PtrV) or p.region is None:
